@@ -145,6 +145,39 @@ theorem select_correct_partial (db : DB) (q : Select) (h : okPat q.where_ = true
   unfold runSelect specSelect
   exact finalize_plain_perm q hp hd ho hl (where_clause_correct db q h algs)
 
+/-! ## dataset scoping -/
+
+/-- FROM <g1> FROM <g2> …: the query default graph is the *merge* of the source graphs — a triple that occurs in
+    several of them is scanned once -/
+theorem default_graph_merge_dedup (db : DB) (view : View) : (defaultTriples db view).Nodup :=
+  nodup_eraseDups _
+
+/-- `GRAPH ?g { }` binds `?g` to every visible named graph that exists, empty graphs included -/
+theorem graph_var_includes_empty (db : DB) (ctx : Ctx) (v : Var) :
+    sem db ctx (.graph (.var v) .unit) = (ctx.view.named.filter (fun g => db.graphExists g)).map (fun g => [(v, g)]) := by
+  simp only [sem]
+  induction (ctx.view.named.filter (fun g => db.graphExists g)) with
+  | nil => rfl
+  | cons g gs ih =>
+    simp only [flatMap_cons, map_cons, ih]
+    simp [nlJoin, mergeRows_nil_right]
+
+/-- with `FROM` but no `FROM NAMED` no named graph is visible: every GRAPH pattern is empty -/
+theorem named_invisible_without_from_named (db : DB) (q : Select) (hf : q.from_ ≠ []) (hn : q.fromNamed = [])
+    (name : GTerm) (hname : name ≠ .dflt) (p : Pat) :
+    sem db ⟨datasetView db q, none⟩ (.graph name p) = [] := by
+  have hv : (datasetView db q).named = [] := by
+    unfold datasetView
+    have : (q.from_.isEmpty && q.fromNamed.isEmpty) = false := by
+      cases hq : q.from_ with
+      | nil => exact absurd hq hf
+      | cons _ _ => simp
+    simp [View.mk', hn, hf]
+  cases name with
+  | dflt => exact absurd rfl hname
+  | named g => simp [sem, visibleNamed, hv]
+  | var v => simp [sem, hv]
+
 /-! non-vacuity -/
 example : boundIn [(0, "5"), (1, "x")] (Cond.and (.cmp 0 ">" (.const "3")) (.not (.cmp 1 "=" (.var 0)))).vars := by
   intro v hv; simp [Cond.vars] at hv; rcases hv with rfl | rfl | rfl <;> decide
